@@ -88,3 +88,30 @@ fn u05_encode_many_prefix() {
 
 // (withdrawn: a Message::encode/decode round trip of even the empty-list skeleton exceeds 900 s of CBMC --
 // Vec<Vec<u8>> / Vec<Have> growth -- so no obligation is offered for it.)
+
+// Message::encode on the message SKELETON (all four lists empty), every version x flags combination: the bytes are
+// the version byte, four zero counts and -- whatever the version -- the 3-byte flags section exactly when flags
+// are present (a peer learns capabilities and read-only / reset signals from it).
+// Bounded in the list lengths (all empty); complete in version and flags.
+#[kani::proof]
+#[kani::unwind(8)]
+fn u05_message_encode_skeleton() {
+    let v2: bool = kani::any();
+    let has_flags: bool = kani::any();
+    let raw: u8 = kani::any();
+    let m = Message {
+        heads: Vec::new(),
+        need: Vec::new(),
+        have: Vec::new(),
+        changes: ChunkList::empty(),
+        flags: if has_flags { Some(MessageFlags(raw & 0x7f)) } else { None },
+        version: if v2 { MessageVersion::V2 } else { MessageVersion::V1 },
+    };
+    let bytes = m.encode();
+    assert!(bytes.len() == if has_flags { 8 } else { 5 });
+    assert!(bytes[0] == if v2 { MESSAGE_TYPE_SYNC_V2 } else { MESSAGE_TYPE_SYNC });
+    assert!(bytes[1] == 0 && bytes[2] == 0 && bytes[3] == 0 && bytes[4] == 0);
+    if has_flags {
+        assert!(bytes[5] == 2 && bytes[6] == 0x02 && bytes[7] == (0x80 | (raw & 0x7f)));
+    }
+}
